@@ -166,16 +166,16 @@ def equal_reader_rules(ctx, rule):
     ctx.touch(g)
     where = "%s:%d" % (g.file, g.line)
     er = facts.adt(ER)["variants"][0]["fields"]
-    size_f = [x["name"] for x in er if x["ty"] == "usize"]
-    ctx.require(len(size_f) == 1, "%s: remaining-size field of EqualReader" % rule)
-    SIZE = ("init", (1, "*", "." + size_f[0]))
+    skey = shared.size_key_of(facts, ER)
+    ctx.require(skey is not None, "%s: remaining-size field of EqualReader" % rule)
+    SIZE = ("init", (1, "*") + skey)
     BUF = ("init", (2,))
     READ = r"std::io::Read::read$| as std::io::Read>::read$"
     def mentions(v, needle):
         return absint.contains(v, needle)
     # size == 0
     st = symex.Sym(g)
-    st.write_key((1, "*", "." + size_f[0]), ("const", 0, "0_usize", None))
+    st.write_key((1, "*") + skey, ("const", 0, "0_usize", None))
     ps = [p for p in absint.explore(g, 0, st) if p.end[0] not in FRM.DEAD]
     ok = bool(ps) and all(p.end[0] == "return" and p.ret() == ("agg", "std::result::Result", "Ok", {"0": ("const", 0, "0_usize", None)}) or
                           (p.end[0] == "return" and p.ret()[0] == "agg" and p.ret()[2] == "Ok" and absint.const_of(p.ret()[3]["0"]) == 0) for p in ps) \
@@ -204,7 +204,7 @@ def equal_reader_rules(ctx, rule):
                 buf = inner
         bound_ok = False
         how = symex.sym_str(buf)[:120]
-        if buf == BUF or buf == ("ref", (2, "*")) or (buf[0] == "ref" and buf[1][0] == 2 and all(x == "*" for x in buf[1][1:])):
+        if buf == BUF or buf == ("ref", (2, "*")) or buf == ("init", (2, "*")) or (buf[0] == "ref" and buf[1][0] == 2 and all(x == "*" for x in buf[1][1:])):
             # the caller's whole buffer: only under `len(buf) < size` (or <=)
             for bb, c in p.conds:
                 if c and c[0] == "scalar" and isinstance(c[2], bool) and c[1][0] == "binop":
@@ -239,7 +239,7 @@ def equal_reader_rules(ctx, rule):
             from_read = absint.mentions_call(cnt, e[4])
             if not from_read:
                 bad_ret.append(symex.sym_str(cnt)[:80])
-            fin = p.state.read_key((1, "*", "." + size_f[0]))
+            fin = p.state.read_key((1, "*") + skey)
             subs = [x for x in absint.walk_terms(fin) if x and x[0] == "binop" and x[1] in ("Sub", "SubWithOverflow", "SubUnchecked")]
             ok_d = bool(subs) and subs[0][2] == SIZE and absint.mentions_call(subs[0][3], e[4])
             if not ok_d and not (fin[0] == "call" and re.search(r"(saturating|wrapping|checked)_sub$", fin[1]) and False):
